@@ -28,6 +28,8 @@ HERE = os.path.dirname(os.path.abspath(__file__))
 LIBS = ["testcel_celeritas", "testcel_harness", "testcel_core", "testcel_geocel",
         "celeritas", "orange", "geocel", "corecel"]
 
+MODEL_FILES = ["Gather", "Loop", "Multi"]     # executable model (no proofs), extracted by C17/Extract.v
+
 NBITS = 17
 ALL = (1 << NBITS) - 1
 BIT = {n: i for i, n in enumerate(
@@ -129,6 +131,9 @@ def gen_config(r, idx, tier):
                                "det": {v: r.randrange(nid) for v in g}})
         r.shuffle(ifaces)
     cfg["ifaces"] = ifaces
+    # SimpleCalo with several streams: process_steps calls are spread over the streams
+    ns = r.choice([1, 1, 2, 3, 4])
+    cfg["streams"] = (ns, r.choice([0, 1, 1, 2, 3]), r.randrange(ns))
     # primaries
     batches = []
     nb = r.choice([1, 1, 2, 3])
@@ -176,7 +181,8 @@ def corpus_single_slot():
 
 def config_text(cfg):
     L = ["slots %d" % cfg["slots"], "maxiters %d" % cfg["maxiters"], "obsfirst %d" % cfg["obsfirst"],
-         "actiondiag %d" % cfg["actiondiag"], "stepdiag %d" % cfg["stepdiag"]]
+         "actiondiag %d" % cfg["actiondiag"], "stepdiag %d" % cfg["stepdiag"],
+         "streams %d %d %d" % cfg.get("streams", (1, 0, 0))]
     for f in cfg["ifaces"]:
         if f["kind"] == "calo":
             L.append("calo %d %s" % (len(f["labels"]), " ".join(f["labels"])))
@@ -246,6 +252,8 @@ def gen_unit_config(r, idx):
     cfg["actiondiag"] = 1
     cfg["nact"] = r.choice([3, 6])
     cfg["stepdiag"] = r.choice([0, 2, 4, 9])       # number of bins
+    ns = r.choice([1, 1, 2, 3, 5])
+    cfg["streams"] = (ns, r.choice([0, 1, 1, 2, 3]), r.randrange(ns))
     iters = []
     consistent = True
     for _ in range(r.choice([2, 4, 7])):
@@ -289,7 +297,8 @@ def unit_text(cfg):
     sel, nz, detmap = combined_params(cfg)
     L = ["slots %d" % cfg["slots"],
          "params %d %d %d %s" % (sel, cfg["ifaces"][0]["nonzero"] if detmap else 0, len(detmap), " ".join(str(x) for x in detmap)),
-         "ncalo %d" % cfg["ncalo"], "nact %d" % cfg["nact"], "stepdiag %d" % cfg["stepdiag"]]
+         "ncalo %d" % cfg["ncalo"], "nact %d" % cfg["nact"], "stepdiag %d" % cfg["stepdiag"],
+         "streams %d %d %d" % cfg.get("streams", (1, 0, 0))]
     f3 = lambda v: " ".join(fbits(x) for x in v)
     for pre, post in cfg["iters"]:
         L.append("iter")
@@ -350,7 +359,7 @@ class Dump:
                 self.post[int(t[1])].append(t[3:])
             elif k == "ITER":
                 self.iters.append(int(t[1]))
-            elif k in ("COMBINED", "NVOL", "ACTIONS", "DONE", "ACTIONDIAG", "STEPDIAG"):
+            elif k in ("COMBINED", "NVOL", "ACTIONS", "DONE", "ACTIONDIAG", "STEPDIAG", "PARAMS"):
                 self.final[k] = t[1:]
             elif k == "CALO":
                 self.final.setdefault("CALO", {})[int(t[1])] = t[3:]
@@ -364,6 +373,7 @@ class ModelOut:
         self.spec = collections.defaultdict(list)
         self.detout = collections.defaultdict(dict)
         self.final = {}
+        self.loop = {}
         for line in text.splitlines():
             t = line.split()
             if not t:
@@ -375,8 +385,11 @@ class ModelOut:
                 self.spec[int(t[1])].append(t[2:])
             elif k == "MDETOUT":
                 self.detout[int(t[1])][t[2]] = t[3:]
-            elif k in ("MCALO", "MACTION", "MACTIONSKIP", "MSTEPDIAG"):
+            elif k in ("MCALO", "MACTION", "MACTIONSKIP", "MSTEPDIAG", "MLOOPEND",
+                       "MCALOTOTAL", "MACTIONTOTAL", "MSTEPDIAGTOTAL"):
                 self.final[k] = t[1:]
+            elif k == "MLOOP":
+                self.loop[(int(t[1]), int(t[2]))] = t[3:]
 
 
 WIDTH3 = ("pre.pos", "pre.dir", "post.pos", "post.dir")
@@ -447,6 +460,12 @@ def check_config(ctx, cfg, out_text, model_text, np_, stats):
     if not unit and d.final.get("COMBINED") != [str(sel)]:
         bad("correspondence", "combined selection differs from the union of the interfaces' selections",
             impl=d.final.get("COMBINED"), expected=sel)
+    if not unit:
+        exp = [str(nz), str(len(detmap))] + [str(x) for x in detmap] + ["1" if detmap else "0"]
+        if d.final.get("PARAMS") != exp:
+            bad("correspondence", "combined StepParamsData (non-zero flag, detector per volume, has_detectors) differs "
+                "from the union of the interfaces' filters", impl=d.final.get("PARAMS"), expected=exp)
+    nstreams, smult, soff = cfg.get("streams", (1, 0, 0))
     # hypothesis of the theorems: a slot is occupied at pre iff at post
     inconsistent = set()
     for it in d.iters:
@@ -510,20 +529,33 @@ def check_config(ctx, cfg, out_text, model_text, np_, stats):
     for k, n in calos:
         impl = d.final.get("CALO", {}).get(k)
         stats["calo"] += 1
-        if impl != m.final.get("MCALO", [None])[1:]:
-            bad("correspondence", "calorimeter tally differs from the model", impl=impl, model=m.final.get("MCALO"))
+        if nstreams > 1:
+            stats["calo-multistream"] += 1
+        mkey = "MCALOTOTAL" if nstreams > 1 else "MCALO"
+        if impl != m.final.get(mkey, [None])[1:]:
+            bad("correspondence", "calorimeter tally%s differs from the model" % (" merged over the streams" if nstreams > 1 else ""),
+                impl=impl, model=m.final.get(mkey), streams=cfg.get("streams"))
+        if nstreams == 1 and m.final.get("MCALOTOTAL") != m.final.get("MCALO"):
+            bad("correspondence", "model: calo_total with one stream differs from calo_run",
+                total=m.final.get("MCALOTOTAL"), run=m.final.get("MCALO"))
         # fold of the delivered stream (as seen by a recorder registered next to the calorimeter)
         recs = [j for j, g in enumerate(cfg["ifaces"]) if g["kind"] == "rec"]
         if not recs:
             continue
         stats["calo-stream"] += 1
-        tot = [0.0] * n
+        # C17_calo_total_exact: in-order sum over the streams of the in-order per-stream sums
+        per = [[0.0] * n for _ in range(nstreams)]
         for it in d.iters:
             v = d.views[(it, recs[0])]
+            sid = (it * smult + soff) % nstreams
             for s in range(cfg["slots"]):
                 dd = int(v["det"][s])
                 if dd >= 0:
-                    tot[dd] += bits_to_float(v["edep"][s])
+                    per[sid][dd] += bits_to_float(v["edep"][s])
+        tot = [0.0] * n
+        for sid in range(nstreams):
+            for dd in range(n):
+                tot[dd] += per[sid][dd]
         fold = [fbits(x) for x in tot]
         if impl != fold:
             bad("property", "calorimeter tally is not the sum of the delivered deposits", impl=impl, fold=fold)
@@ -531,7 +563,12 @@ def check_config(ctx, cfg, out_text, model_text, np_, stats):
         impl = d.final.get("ACTIONDIAG")
         stats["actiondiag"] += 1
         skipped = False
-        if impl != m.final.get("MACTION"):
+        akey = "MACTIONTOTAL" if unit else "MACTION"
+        if unit and nstreams > 1:
+            stats["diag-multistream"] += 1
+        if unit and nstreams == 1 and m.final.get("MACTIONTOTAL") != m.final.get("MACTION"):
+            bad("correspondence", "model: counts_total with one stream differs from the single-stream run")
+        if impl != m.final.get(akey):
             if not unit and cfg["slots"] == 1 and impl == m.final.get("MACTIONSKIP"):
                 # the model with the host single-slot shortcut applying to the
                 # diagnostic (C17_action_counts_single_slot_refuted) matches: finding
@@ -542,7 +579,8 @@ def check_config(ctx, cfg, out_text, model_text, np_, stats):
                                  {"impl": impl, "counts_of_steps": m.final.get("MACTION"),
                                   "signature": "action-diagnostic-skipped-single-slot-host"}))
             else:
-                bad("correspondence", "ActionDiagnostic counts differ from the model", impl=impl, model=m.final.get("MACTION"))
+                bad("correspondence", "ActionDiagnostic counts differ from the model", impl=impl, model=m.final.get(akey),
+                    streams=cfg.get("streams"))
         # oracle on the delivered stream when it is complete
         need = (1 << BIT["particle"]) | (1 << BIT["action"])
         if not skipped and not has_det and (sel & need) == need and impl and not inconsistent:
@@ -562,8 +600,10 @@ def check_config(ctx, cfg, out_text, model_text, np_, stats):
     if cfg["stepdiag"]:
         impl = d.final.get("STEPDIAG")
         stats["stepdiag"] += 1
-        if impl != m.final.get("MSTEPDIAG"):
-            bad("correspondence", "StepDiagnostic counts differ from the model", impl=impl, model=m.final.get("MSTEPDIAG"))
+        skey = "MSTEPDIAGTOTAL" if unit else "MSTEPDIAG"
+        if impl != m.final.get(skey):
+            bad("correspondence", "StepDiagnostic counts differ from the model", impl=impl, model=m.final.get(skey),
+                streams=cfg.get("streams"))
         need = (1 << BIT["particle"]) | (1 << BIT["event"])
         if not unit and not has_det and (sel & need) == need and impl:
             # steps per track = number of records delivered for (event, track)
@@ -582,7 +622,89 @@ def check_config(ctx, cfg, out_text, model_text, np_, stats):
             if [str(c) for c in cnt] != impl[2:]:
                 bad("property", "StepDiagnostic bins are not the numbers of delivered steps per track",
                     impl=impl, counted=cnt)
+    if not unit:
+        check_loop(cfg, d, m, sel, has_det, rec0, bad, stats)
     return problems
+
+
+def check_loop(cfg, d, m, sel, has_det, rec0, bad, stats):
+    """stepping-loop step counter: coq/C17/Loop.v vs the ground truth, and the statement of
+    C17_step_diagnostic_equals_delivered / C17_num_steps_equals_delivered on the delivered stream"""
+    errored = any(p[0] == "3" for it in d.iters for p in d.post[it])
+    if errored:
+        stats["loop-skipped-errored"] += 1       # errored tracks are outside the loop model
+        return
+    stats["loop"] += 1
+    # tie: (killed, track, event, particle, num_steps) of every occupied slot
+    inits = collections.Counter()
+    prev = {}
+    for it in d.iters:
+        post = d.post[it]
+        for s in range(min(cfg["slots"], len(post))):
+            pz = post[s]
+            mod = m.loop.get((it, s))
+            if pz[0] == "0":
+                obs = None
+            else:
+                obs = ["1" if pz[0] == "4" else "0", pz[1], pz[2], pz[16], pz[4]]
+                stats["loop-records"] += 1
+            if obs != mod:
+                bad("correspondence", "step counter / slot life cycle differs from the loop model "
+                    "(iteration %d, slot %d)" % (it, s), impl=obs, model=mod)
+            # hypothesis of the theorems: ids handed to initialisations are unique
+            key = None if obs is None else (pz[2], pz[1], pz[16])
+            if key is not None and prev.get(s) != key:
+                inits[key] += 1
+            prev[s] = None if (obs is None or pz[0] == "4") else key
+    mend = m.final.get("MLOOPEND") or ["-1", "0", "0"]
+    stats["loop-inits-at-start"] += int(mend[1])
+    stats["loop-secondaries-in-place"] += int(mend[2])
+    dup = [k for k, c in inits.items() if c > 1]
+    if dup:
+        bad("assumption", "an (event, track, particle) id was initialised twice", ids=dup[:3])
+        return
+    need = (1 << BIT["particle"]) | (1 << BIT["event"])
+    if has_det or (sel & need) != need or rec0 is None:
+        return
+    # delivered records per (event, track, particle)
+    per = collections.Counter()
+    has_n = bool(sel & (1 << BIT["nsteps"]))
+    for it in d.iters:
+        v = d.views[(it, rec0)]
+        for s in range(cfg["slots"]):
+            if v["track"][s] != "-1":
+                k = (v["event"][s], v["track"][s], v["particle"][s])
+                per[k] += 1
+                # C17_track_step_count_is_running_count
+                if has_n:
+                    stats["loop-running-count"] += 1
+                    if int(v["nsteps"][s]) != per[k]:
+                        bad("property", "delivered track_step_count is not the number of records delivered so far for the track",
+                            track=k, iteration=it, slot=s, delivered_step_count=v["nsteps"][s], records_so_far=per[k])
+    # C17_num_steps_equals_delivered: the counter at death = number of delivered records
+    killed = set()
+    for it in d.iters:
+        for pz in d.post[it]:
+            if pz[0] == "4":
+                stats["loop-deaths"] += 1
+                k = (pz[2], pz[1], pz[16])
+                killed.add(k)
+                if int(pz[4]) != per[k]:
+                    bad("property", "num_steps at a track's death is not the number of step records delivered for it",
+                        track=k, num_steps=pz[4], delivered=per[k])
+    # C17_step_diagnostic_equals_delivered (complete runs)
+    impl = d.final.get("STEPDIAG")
+    done = d.final.get("DONE")
+    complete = bool(done) and done[1] == "0" and mend[0] == "0"
+    if cfg["stepdiag"] and impl and complete:
+        nb = int(impl[1])
+        cnt = [0] * (int(impl[0]) * nb)
+        for (ev, tr, pa), n in per.items():
+            cnt[int(pa) * nb + min(n, nb - 1)] += 1
+        stats["stepdiag-hist"] += 1
+        if [str(c) for c in cnt] != impl[2:]:
+            bad("property", "StepDiagnostic histogram is not the histogram of delivered records per track",
+                impl=impl, histogram_of_delivered=cnt)
 
 
 def run_configs(ctx, loop_exe, model_exe, cfgs):
@@ -637,6 +759,7 @@ def run_configs(ctx, loop_exe, model_exe, cfgs):
             ncalo = max([len(f["labels"]) for f in cfg["ifaces"] if f["kind"] == "calo"] + [0])
             nbins = cfg["stepdiag"] + 2 if cfg["stepdiag"] else 0
         args = [str(sel), str(nz), str(ncalo), str(P["np"]), str(nact), str(nbins), str(len(detmap))] + [str(x) for x in detmap]
+        args += [str(x) for x in cfg.get("streams", (1, 0, 0))]
         mrc, mout = vlib.sh([model_exe] + args, input=out, timeout=300)
         return cfg, txt, rc, out, mrc, mout
 
@@ -676,6 +799,135 @@ def run_configs(ctx, loop_exe, model_exe, cfgs):
     return stats
 
 
+# ---------------------------------------------------------------------------
+# StepParams constructor: combined parameters / rejected interface lists
+
+def gen_params_case(r, idx):
+    prob = r.choice(["simple", "mock"])
+    P = PROBLEMS[prob]
+    nvol = P["nvol"]
+    kind = r.choice(["valid-det", "valid-det", "valid-none", "mixed", "dup", "nodata", "random", "random"])
+    n = r.choice([1, 2, 2, 3, 4, 5])
+    ifs = []
+    vols = list(range(nvol))
+    r.shuffle(vols)
+    if kind in ("valid-det", "dup", "mixed", "nodata", "random"):
+        k = 0
+        for i in range(n):
+            m = r.randrange(1, 3)
+            mine = vols[k:k + m]
+            k += m
+            ifs.append({"sel": gen_selection(r), "nonzero": 1 if r.random() < 0.7 else 0,
+                        "det": {v: r.randrange(4) for v in mine}})
+        ifs = [f for f in ifs if f["det"]] or [{"sel": gen_selection(r), "nonzero": 1, "det": {vols[0]: 0}}]
+    else:
+        for i in range(n):
+            ifs.append({"sel": gen_selection(r), "nonzero": r.randrange(2), "det": {}})
+    def some():
+        return r.randrange(len(ifs))
+    if kind == "mixed" or (kind == "random" and r.random() < 0.4):
+        ifs.insert(r.randrange(len(ifs) + 1), {"sel": gen_selection(r), "nonzero": r.randrange(2), "det": {}})
+    if kind == "dup" or (kind == "random" and r.random() < 0.4):
+        src = ifs[some()]
+        if src["det"]:
+            v = r.choice(sorted(src["det"]))
+            tgt = {"sel": gen_selection(r), "nonzero": 1, "det": {v: r.randrange(4)}}
+            if r.random() < 0.5 and len(ifs) > 1:
+                ifs[some()]["det"].setdefault(v, r.randrange(4)) if r.random() < 0.5 else ifs.append(tgt)
+            else:
+                ifs.insert(r.randrange(len(ifs) + 1), tgt)
+    if kind == "nodata" or (kind == "random" and r.random() < 0.3):
+        ifs[some()]["sel"] = 0
+    return {"idx": idx, "problem": prob, "kind": kind, "ifaces": ifs}
+
+
+def params_case_text(case):
+    L = ["slots 2", "maxiters 0"]
+    for f in case["ifaces"]:
+        L.append("iface %d %d 0 %d %s" % (f["sel"], f["nonzero"], len(f["det"]),
+                                         " ".join("%d %d" % kv for kv in sorted(f["det"].items()))))
+    return "\n".join(L) + "\n"
+
+
+def run_params_cases(ctx, loop_exe, model_exe, cases, stats):
+    inp = "".join("=== %s\n%s" % (c["problem"], params_case_text(c)) for c in cases)
+    ofile = os.path.join(ctx.work, "dump_params.txt")
+    rc, log = ctx.run_harness(loop_exe, [ofile], input=inp, timeout=600, env={"CELER_LOG_LOCAL": "error"})
+    try:
+        with open(ofile) as f:
+            out = f.read()
+        os.remove(ofile)
+    except OSError:
+        out = ""
+    if rc != 0:
+        raise vlib.BuildError("loop harness failed rc=%d on the StepParams cases" % rc, log[-1500:])
+    parts = out.split("=== CONFIG ")[1:]
+    if len(parts) != len(cases):
+        raise vlib.BuildError("loop harness: %d outputs for %d StepParams cases" % (len(parts), len(cases)), out[-1500:])
+    nviol = 0
+    for case, part in zip(cases, parts):
+        P = PROBLEMS[case["problem"]]
+        impl = None
+        for line in part.splitlines():
+            t = line.split()
+            if not t:
+                continue
+            if t[0] == "EXCEPTION":
+                if "collect any data" in line:
+                    impl = ["MERROR", "nodata"]
+                elif "multiple step interfaces map single volume" in line:
+                    impl = ["MERROR", "dup"]
+                elif "inconsistent step callbacks" in line:
+                    impl = ["MERROR", "mixed"]
+                else:
+                    impl = ["EXCEPTION", line]
+            elif t[0] == "COMBINED":
+                comb = t[1]
+            elif t[0] == "PARAMS" and impl is None:
+                # PARAMS nz ndet d... hasdet  ->  MPARAMS sel nz ndet d...
+                impl = ["MPARAMS", comb] + t[1:-1]
+                hasdet = t[-1]
+        args = ["params", str(P["nvol"]), str(len(case["ifaces"]))]
+        for f in case["ifaces"]:
+            args += [str(f["sel"]), str(f["nonzero"]), str(len(f["det"]))]
+            for v, dd in sorted(f["det"].items()):
+                args += [str(v), str(dd)]
+        mrc, mout = vlib.sh([model_exe] + args, timeout=60)
+        if mrc != 0:
+            raise vlib.BuildError("model driver (params mode) failed rc=%d" % mrc, mout[-1500:])
+        model = mout.split()
+        stats["params"] += 1
+        ctx.count("stepparams:" + case["kind"])
+        ctx.count("stepparams-result:" + (model[1] if model[0] == "MERROR" else "accepted"))
+        ctx.case(("params", case["idx"]), nontrivial=True)
+        if model[0] == "MERROR":
+            stats["params-rejected"] += 1
+        problems = []
+        if impl != model:
+            problems.append(("correspondence", "StepParams constructor differs from the model (step_params_build)",
+                             {"impl": impl, "model": model}))
+        # property oracle (C17_step_params_*): mixed lists are rejected; accepted lists give the union
+        dets = [bool(f["det"]) for f in case["ifaces"]]
+        mixed = any(dets) and not all(dets)
+        if mixed and impl and impl[0] == "MPARAMS":
+            problems.append(("property", "a mix of step interfaces with and without detectors was accepted", {"impl": impl}))
+        if impl and impl[0] == "MPARAMS":
+            sel, nz, detmap = combined_params({"problem": case["problem"], "ifaces": case["ifaces"]})
+            exp = ["MPARAMS", str(sel), str(nz), str(len(detmap))] + [str(x) for x in detmap]
+            if impl != exp:
+                problems.append(("property", "combined step parameters are not the union of the interfaces' "
+                                 "selections / detector maps (AND of the non-zero flags)", {"impl": impl, "expected": exp}))
+            if hasdet != ("1" if detmap else "0"):
+                problems.append(("property", "has_detectors() inconsistent with the interfaces", {"impl": hasdet}))
+        for kind, what, detail in problems:
+            nviol += 1
+            if nviol > 3:
+                break
+            ctx.violation(kind, what, {"problem": case["problem"], "config": params_case_text(case), "detail": detail,
+                                       "replay": "(echo '=== %s'; cat config) | CELER_DISABLE_PARALLEL=1 %s" % (case["problem"], loop_exe)},
+                          no_input=(kind == "correspondence"))
+
+
 def run(ctx):
     ctx.trusted += [
         "hand-written model coq/C17/Gather.v, tied by the loop and unit differentials (props/C17/run.py)",
@@ -689,14 +941,17 @@ def run(ctx):
     ]
     proofs_ok = ctx.coq_prove("Properties_C17.v")
     def model_fresh():
-        v = os.path.join(vlib.COQDIR, "C17", "Gather.v")
-        vo = v + "o"
-        return os.path.exists(vo) and os.path.getmtime(vo) >= os.path.getmtime(v)
+        for name in MODEL_FILES:
+            v = os.path.join(vlib.COQDIR, "C17", name + ".v")
+            vo = v + "o"
+            if not (os.path.exists(vo) and os.path.getmtime(vo) >= os.path.getmtime(v)):
+                return False
+        return True
 
     if not (proofs_ok and model_fresh()):
         # the model file has no proofs: it must still build when a proof is broken
         for attempt in range(2):
-            ok, _ = ctx.coq_build(["C17/Gather.vo"])
+            ok, _ = ctx.coq_build(["C17/%s.vo" % n for n in MODEL_FILES])
             if ok or model_fresh():
                 break
             time.sleep(3)
@@ -717,6 +972,12 @@ def run(ctx):
     stats = run_configs(ctx, loop_exe, model_exe, cfgs)
     ctx.log("loop configs=%d %s" % (n_cfg, dict(stats)))
 
+    # StepParams constructor: accepted / rejected interface lists
+    n_par = 80 if ctx.tier == "quick" else 1500
+    pcases = [gen_params_case(ctx.rng, 200000 + i) for i in range(n_par)]
+    for i in range(0, len(pcases), 100):
+        run_params_cases(ctx, loop_exe, model_exe, pcases[i:i + 100], stats)
+
     # unit-level differential: executors instantiated by the harness itself
     n_unit = 150 if ctx.tier == "quick" else 2500
     ucfgs = [gen_unit_config(ctx.rng, 100000 + i) for i in range(n_unit)]
@@ -734,4 +995,5 @@ def run(ctx):
     ctx.coverage["traces_validated_against_impl"] = int(stats["views"])
     ctx.coverage["delivered_records_checked"] = int(stats["records"])
     ctx.coverage["tallies_checked"] = {k: int(stats[k]) for k in
-                                       ("calo", "calo-stream", "actiondiag", "actiondiag-stream", "stepdiag", "stepdiag-stream", "detout")}
+                                       ("calo", "calo-stream", "actiondiag", "actiondiag-stream", "stepdiag", "stepdiag-stream", "detout",
+                                        "calo-multistream", "diag-multistream", "params", "params-rejected", "loop", "loop-records", "loop-deaths", "loop-running-count", "loop-inits-at-start", "loop-secondaries-in-place", "stepdiag-hist", "loop-skipped-errored")}
